@@ -647,7 +647,7 @@ FILTERS = {
     "tokeniser": re.compile(r"^parser::generated::|FieldConsumptionTracker"),
     "predicates": re.compile(r"::(has_reject_codes|has_return_codes|is_cover_message|is_stp_message|is_stp_compliant)$"),
     "amount": re.compile(r"amount|decimal|Field(19|32|33|34|36|37|60|61|62|64|65|71F|71G|90)"),
-    "date": re.compile(r"date|time|Field(11|13|30|32|60|61|62|64|65)"),
+    "date": re.compile(r"parse_date|parse_time|parse_datetime|date_format|time_format|date_string|Field(11|13|30|32|60|61|62|64|65)"),
     "headers": re.compile(r"^headers::|Header"),
 }
 
